@@ -254,20 +254,20 @@ def make_invalid(rng, entry, kind, call, objs):
         if 'filter' in call:
             f = dict(call['filter'])
             if f['kind'] == 'OverlapFilter':
-                f['overlap_size'] = rng.choice([0, -1, -0.5])
+                f['overlap_size'] = rng.choice([0, -1, -0.5, gen.NAN, float('-inf')])
             elif f['measure'] == 'OVERLAP':
-                f['threshold'] = rng.choice([0, -1, -2.5])
+                f['threshold'] = rng.choice([0, -1, -2.5, gen.NAN, float('-inf')])
             elif f['measure'] == 'EDIT_DISTANCE':
-                f['threshold'] = rng.choice([-1, -0.5, -3])
+                f['threshold'] = rng.choice([-1, -0.5, -3, gen.NAN, float('-inf')])
             else:
-                f['threshold'] = rng.choice([0, 0.0, -0.3, 1.0000001, 1.5, 2, -1])
+                f['threshold'] = rng.choice([0, 0.0, -0.3, 1.0000001, 1.5, 2, -1, gen.NAN, float('inf'), float('-inf')])
             call['filter'] = f
         elif entry == 'overlap_join':
-            call['threshold'] = rng.choice([0, -1, -0.5])
+            call['threshold'] = rng.choice([0, -1, -0.5, gen.NAN, float('-inf')])
         elif entry == 'edit_distance_join':
-            call['threshold'] = rng.choice([-1, -0.5, -4])
+            call['threshold'] = rng.choice([-1, -0.5, -4, gen.NAN, float('-inf')])
         else:
-            call['threshold'] = rng.choice([0, 0.0, -0.3, 1.0000001, 1.5, 2, -1])
+            call['threshold'] = rng.choice([0, 0.0, -0.3, 1.0000001, 1.5, 2, -1, gen.NAN, float('inf'), float('-inf')])
     elif kind == 'bad_op':
         if 'filter' in call:
             call['filter'] = dict(call['filter'], comp_op=rng.choice(['<=', '<', '!=', 'ge', '']))
